@@ -176,4 +176,22 @@ def blockedB (s : St) (p : Tid) : Bool :=
   | some c => !isDoneB s c
   | none => false
 
+/-- one scheduling event: thread `t` executes its next line, or thread `p` starts a nested `_send(m)` -/
+inductive Ev where
+  | run (t : Tid)
+  | reent (p : Tid) (m : Msg)
+  deriving Repr
+
+/-- executable `Reachable` step (refuses suspended threads and unused thread ids) -/
+def exec (s : St) : Ev → Option St
+  | .run t => if blockedB s t then none else step s t
+  | .reent p m => if blockedB s p then none else if p < s.next then some (reenter s p m) else none
+
+def execAll (s : St) : List Ev → Option St
+  | [] => some s
+  | e :: l =>
+    match exec s e with
+    | none => none
+    | some s' => execAll s' l
+
 end Rpyc.Conc.SendQ
